@@ -146,6 +146,16 @@ public:
 	  {
 	    output_basename = string(1, entry.directory()) + "." + rtrim(entry.name());
 	  }
+	if (output_basename.find('/') != string::npos)
+	  {
+	    // The catalogue is untrusted input; a name such as "../x"
+	    // must not make us create files outside the destination
+	    // directory.
+	    std::cerr << "refusing to extract " << output_origname
+		      << ": the name contains '/' and so the file would not "
+		      << "be created directly inside " << dest_dir << "\n";
+	    return false;
+	  }
 	const string output_body_file = dest_dir + output_basename;
 
 	std::ofstream outfile(output_body_file, std::ofstream::out);
